@@ -23,6 +23,11 @@ def warm(ctx):
 
 
 def replay_harness(ctx, casefile, toks):
+    if toks and toks[0] == 1:
+        # a concurrent case cannot be re-executed with the same interleaving: the recorded case is judged as is
+        if os.path.exists(casefile):
+            os.remove(casefile)
+        return 0, ""
     return ctx.go_test(PKG, "TestVerifC14Replay$", OVERLAY,
                        env={"VERIF_OUT": casefile, "VERIF_REPLAY_CASE": " ".join(map(str, toks))}, timeout=600)
 
@@ -52,7 +57,43 @@ def parse(t):
     return cfg, steps
 
 
+def parse_conc(t):
+    """concurrent case -> (cfg, prefix ops, worker op lists, obs)"""
+    try:
+        np_ = t[1]
+        cfg = {"peers": np_, "low": t[2], "high": t[3], "grace": t[4], "concurrent": True}
+        i = 5
+
+        def ops(n, i):
+            res = []
+            for _ in range(n):
+                name, k = OPN[t[i]]
+                res.append("%s%s" % (name, tuple(t[i + 1:i + 1 + k])))
+                i += 1 + k
+            return res, i
+        pre, i = ops(t[i], i + 1)
+        nw = t[i]
+        i += 1
+        ws = []
+        for _ in range(nw):
+            w, i = ops(t[i], i + 1)
+            ws.append(w)
+        cnt = t[i]
+        peers = [t[i + 1 + 3 * k: i + 4 + 3 * k] for k in range(np_)]
+        i += 1 + 3 * np_
+        k = t[i]
+        closed = [t[i + 1 + 2 * j: i + 3 + 2 * j] for j in range(k)]
+        return cfg, pre, ws, {"count": cnt, "peers(present,value,tagsum)": peers, "closed(p,c)": closed}
+    except (KeyError, IndexError):
+        return None
+
+
 def describe(t):
+    if t and t[0] == 1:
+        r = parse_conc(t)
+        if not r:
+            return {"raw": t[:120]}
+        return {"config": r[0], "prefix": r[1], "workers(first ops)": [w[:12] for w in r[2]], "final": r[3]}
     r = parse(t)
     if not r:
         return {"raw": t[:120]}
@@ -63,7 +104,11 @@ def describe(t):
 def nontrivial(line):
     # non-trivial: some trim (op 12/13) closed at least one connection.  Cheap test on the raw line:
     # decode properly (lines are short).
-    r = parse([int(x) for x in line.split()])
+    t = [int(x) for x in line.split()]
+    if t and t[0] == 1:
+        r = parse_conc(t)
+        return bool(r and r[3]["closed(p,c)"])
+    r = parse(t)
     if not r:
         return False
     return any(n in ("TrimOpenConns", "ForceTrim") and o["closed(p,c)"] for n, a, o in r[1])
@@ -71,9 +116,13 @@ def nontrivial(line):
 
 def key(tag, toks, d):
     # identity = violated clause + op at the failing step + configuration + the op history up to that step
-    r = parse(toks)
     idx = d[1] if len(d) > 1 else 0
     clause = d[2] if len(d) > 2 else -1
+    if toks and toks[0] == 1:
+        r = parse_conc(toks)
+        return "C14:concurrent:clause=%d:low=%d:grace=%d:prefix=%s:final=%s" % (
+            clause, toks[2], toks[4], ";".join(r[1]) if r else "?", (r[3] if r else "?"))
+    r = parse(toks)
     if not r:
         return "C14:malformed:%s" % d
     cfg, steps = r
@@ -82,8 +131,14 @@ def key(tag, toks, d):
         clause, steps[idx][0] if idx < len(steps) else "?", cfg["low"], cfg["high"], cfg["grace"], hist[-600:])
 
 
-CLAUSE = {1: "a TrimOpenConns closed set violates the trim clauses (protected / in grace / lower-valued kept / not idle below low / more than low eligible left)",
-          2: "a ForceTrim closed set violates the forced-trim clauses (protected closed before all unprotected / order / not idle below low)",
+CLAUSE = {11: "a TrimOpenConns closed a connection of a protected peer, of a peer inside its grace period, or an untracked one",
+          12: "a TrimOpenConns closed a peer while a lower-valued eligible peer was kept",
+          13: "a TrimOpenConns closed connections although the count was at or below the low watermark",
+          14: "a TrimOpenConns left more than low-watermark connections among the eligible peers",
+          21: "a ForceTrim closed an untracked connection",
+          22: "a ForceTrim closed a protected peer while an unprotected peer kept a connection",
+          23: "a ForceTrim closed a peer while a lower-valued peer of the same protection class was kept",
+          24: "a ForceTrim closed connections although the count was at or below the low watermark",
           3: "connection count differs from what the Connected/Disconnected notifications imply",
           4: "a peer's tag total differs from what the tag operations imply"}
 
@@ -121,6 +176,9 @@ if __name__ == "__main__":
              "advances across the grace period and decay intervals, TrimOpenConns and ForceTrim, with Disconnected delivered (or not) for closed "
              "connections. After every op: GetInfo().ConnCount, GetTagInfo (presence, Value, sum of Tags) of all peers, and the set of connections "
              "CloseWithError was called on. conform_case replays the ops on the Coq model (state compared exactly, closed set judged by trim_ok); "
-             "monitor_case judges the observations by the property alone. Non-trivial = a trim closed at least one connection; distinct = distinct lines.",
+             "monitor_case judges the observations by the property alone. CONCURRENT cases (300 quick / 10000 thorough): 6 goroutines doing "
+             "Connected/Disconnected/TagPeer/UntagPeer/UpsertTag on their own connection/tag ids of all peers while 2 goroutines call TrimOpenConns "
+             "in a loop; at quiescence count and totals must equal what the op lists imply (interleaving-independent by construction) and no closed "
+             "connection may belong to a peer that was protected or inside its grace period throughout. Non-trivial = a trim closed at least one connection; distinct = distinct lines.",
         describe=describe, key=key, what=what, crosscheck=150,
     ))
